@@ -131,7 +131,7 @@ def try_chain(arm_body, fn):
 
 def r2_wiring(run, F):
     e = F.body("<alpha::common::Expression as alpha::resolver::Resolvable>::resolve")
-    m = [x for x in hirq.matches(e["hir"]) if len(x["arms"]) > 15][0]
+    m = [x for x in hirq.matches(e["hir"]) if hirq.n_alts(x) > 15][0]
     spec = [("Binary", RES + "resolve_binary_op_type", "Binary", "value_type"),
             ("Unary", RES + "resolve_unary_op_type", "Unary", "value_type"),
             ("BitCast", RES + "analyze_bit_cast_and_get_coerced_type", "BitCast", "coerced_type"),
@@ -280,7 +280,7 @@ def r4_calls(run, F):
     for fn, variant in (("<alpha::common::Statement as alpha::analyzer::function_calls::Analyzable>::analyze", "Statement::MethodCall"),
                         ("<alpha::common::Expression as alpha::analyzer::function_calls::Analyzable>::analyze", "Expression::FunctionCall")):
         body = F.body(fn)
-        m = [x for x in hirq.matches(body["hir"]) if len(x["arms"]) >= 8][0]
+        m = [x for x in hirq.matches(body["hir"]) if hirq.n_alts(x) >= 8][0]
         arms = hirq.arm_for(m, variant)
         found = any("alpha::analyzer::function_calls::Analyzer::use_function" in [hirq.callee(c) for c in hirq.calls(a["body"])] for a in arms)
         run.ob("R4-CALLS-CHECKED", variant, found, F.where(body), "%s must be checked by use_function" % variant)
@@ -319,7 +319,7 @@ def r5_unification(run, F):
 
 def r6_codes(run, F):
     code = F.body("alpha::error::Error::code")
-    cm = [x for x in hirq.matches(code["hir"]) if len(x["arms"]) > 40][0]
+    cm = [x for x in hirq.matches(code["hir"]) if hirq.n_alts(x) > 40][0]
     rows = {hirq.pat_key(a["pat"]).split("::")[-1]: hirq.unwrap_trivial(a["body"]).get("v") for a in cm["arms"]}
     ref = load_ref("c07_codes.json")
     for v, c in ref.items():
